@@ -7,7 +7,9 @@ import kernel_part as K
 # C03: the subscription kernel (RoProps/C03 + KernelTie: the programs of subscriptionImpl regenerated from subscription.go and decided
 # equal to the ones the theorems are about) — every operator cancels its upstream by registering a teardown with Add: a teardown
 # stored on a disposed subscription would never run (kernel_add_after_done_not_stored, kernel_finalizers_exactly_once_at_end)
-LEAN_MODULES = ['C14', 'C03']
+# cancellation of the subscription context reaches upstream only if every operator subscribes its source with (a context derived from) the
+# context it was subscribed with: that is C09's regenerated context-provenance table (RoProps/C09: upstream rows) - taken as a premise here
+LEAN_MODULES = ['C14', 'C03', 'C09']
 
 MANIFEST = dict(
     text="Proved in Lean for every machine, raw script and cut position over a hot (never-ending or not) source: once the downstream side is closed - by a terminal the operator emitted or by an "
@@ -49,4 +51,4 @@ def check(ctx):
     return dict(rule=kp['rule'] + ' [C14 reads the predicate fin-missing: a teardown whose Add returned on a subscription that was disposed has run]; every catalogue operator (hot source, external Unsubscribe at a random position, early terminators) and random chains of 2-5 operators; '
                      'never-ending goroutine-driven source below each operator with Take/First/Unsubscribe/context-cancel above it; compared: probe teardown count, subscription count, closed flag; '
                      'Share / connectable event sequences of C11: live/total upstream subscriptions after every event',
-                search=combine_search(kp['search'], table_search('C14')))
+                search=combine_search(kp['search'], table_search('C14'), table_search('C09')))
